@@ -2333,3 +2333,127 @@ pub fn c13_inbound_bound(nd: &mut Nondet) {
         check("c13i.inbound-bound-respected", after <= limit);
     }
 }
+
+// ------------------------------------------------------------------------------------------ C08 transport service kernel
+use litep2p::protocol::transport_service::verif_hooks as ts;
+
+/// C08 (kernel): the per-peer event stream a protocol sees from its TransportService, with up to two overlapping
+/// connections per peer, and substream-open requests.
+pub fn c08_service_events(nd: &mut Nondet) {
+    let mut manager = TransportManagerBuilder::new().build();
+    let mut service = ts::new_service(&mut manager);
+    let peers = [nd.peer_id_fixed(1), nd.peer_id_fixed(2)];
+    // reference: per peer the announced live connections, primary first, with their command channels
+    let mut live: Vec<Vec<usize>> = vec![Vec::new(), Vec::new()];
+    let mut channels: Vec<(usize, ts::CommandQueue)> = Vec::new();
+    let mut connected = [false, false];           // as told to the protocol
+    let mut next_id = 0usize;
+    let mut last_substream: Option<SubstreamId> = None;
+    let steps = param("steps", 4);
+    for _ in 0..steps {
+        let p = nd.choose("peer", 2) as usize;
+        match nd.choose("event", 3) {
+            0 => {
+                // the manager announces at most two connections per peer (C06)
+                if live[p].len() >= 2 { assume(false); }
+                let id = next_id; next_id += 1;
+                let (handle, rx) = ts::new_connection(ConnectionId::from(id));
+                channels.push((id, rx));
+                let endpoint = Endpoint::Listener { address: Multiaddr::empty(), connection_id: ConnectionId::from(id) };
+                let told = ts::on_connection_established(&mut service, peers[p], endpoint, ConnectionId::from(id), handle);
+                check("c08.established-reported-iff-first-connection", told == live[p].is_empty());
+                if told { check("c08.events-alternate", !connected[p]); connected[p] = true; cover("c08.established"); } else { cover("c08.secondary"); }
+                live[p].push(id);
+            }
+            1 => {
+                if live[p].is_empty() { assume(false); }
+                let k = nd.choose("which", live[p].len() as u64) as usize;
+                let id = live[p].remove(k);
+                channels.retain(|(c, _)| *c != id);
+                let told = ts::on_connection_closed(&mut service, peers[p], ConnectionId::from(id));
+                check("c08.closed-reported-iff-last-connection", told == live[p].is_empty());
+                if told { check("c08.events-alternate", connected[p]); connected[p] = false; cover("c08.closed"); } else { cover("c08.one-of-two-closed"); }
+            }
+            _ => {
+                match service.open_substream(peers[p]) {
+                    Ok(id) => {
+                        cover("c08.open.accepted");
+                        check("c08.substream-only-for-a-connected-peer", connected[p] && !live[p].is_empty());
+                        if let Some(prev) = last_substream { check("c08.substream-ids-are-never-reused", id != prev); }
+                        last_substream = Some(id);
+                        // the request goes to the primary (oldest live) connection, exactly once, with the same identifier
+                        let primary = live[p][0];
+                        let mut seen = 0;
+                        for (c, rx) in channels.iter_mut() {
+                            if let Some((sid, cid)) = ts::next_open_command(rx) {
+                                seen += 1;
+                                check("c08.open-request-carries-the-returned-id", sid == id);
+                                check("c08.open-request-targets-the-primary-connection", *c == primary && cid == ConnectionId::from(primary));
+                            }
+                        }
+                        check("c08.open-request-issued-exactly-once", seen == 1);
+                    }
+                    Err(_) => {
+                        cover("c08.open.refused");
+                        check("c08.connected-peer-can-open-substreams", !connected[p]);
+                    }
+                }
+            }
+        }
+        // the service's own view agrees with the reference
+        for q in 0..2 {
+            let view = ts::connections_of(&service, &peers[q]);
+            match (view, live[q].len()) {
+                (None, 0) => {}
+                (Some((primary, secondary)), n) if n > 0 => {
+                    check("c08.primary-is-the-oldest-live-connection", primary == ConnectionId::from(live[q][0]));
+                    check("c08.secondary-tracked", secondary == if n == 2 { Some(ConnectionId::from(live[q][1])) } else { None });
+                }
+                _ => check("c08.service-tracks-exactly-the-connected-peers", false),
+            }
+        }
+    }
+}
+
+// ------------------------------------------------------------------------------------------ C07/C08 connection-closed report of one connection
+use litep2p::protocol::protocol_set::verif_hooks as ps;
+
+/// C07 (kernel): when a connection ends, every still-running protocol and the manager are told exactly once,
+/// protocols before the manager, and a protocol that has shut down does not keep the others from being told.
+pub fn c07_closed_report(nd: &mut Nondet) {
+    const N: usize = 3;
+    let peer = nd.peer_id_fixed(1);
+    let mut rig = ps::new_rig(N, 2);
+    // each protocol is running, has shut down (receiver dropped) or is busy (channel full)
+    let mut state = [0u64; N];
+    for i in 0..N {
+        state[i] = nd.choose("protocol_state", 3);
+        match state[i] { 1 => ps::drop_protocol(&mut rig, i), 2 => ps::clog_protocol(&mut rig, i, peer), _ => {} }
+    }
+    let any_busy = state.iter().any(|s| *s == 2);
+    let any_down = state.iter().any(|s| *s == 1);
+    match ps::report_connection_closed_once(&mut rig, peer, ConnectionId::from(0usize)) {
+        None => {
+            cover("c07.blocked");
+            check("c07.blocks-only-on-a-busy-protocol", any_busy);
+            // protocols before the manager: nothing reaches the manager while a running protocol is still untold
+            check("c07.manager-is-told-after-the-protocols", ps::manager_reports(&mut rig) == 0);
+        }
+        Some(ok) => {
+            cover("c07.completed");
+            check("c07.completes-only-without-busy-protocols", !any_busy);
+            check("c07.result-reflects-protocols-that-are-gone", ok == !any_down);
+            check("c07.manager-told-exactly-once", ps::manager_reports(&mut rig) == 1);
+        }
+    }
+    for i in 0..N {
+        match ps::closed_reports_of(&mut rig, i) {
+            None => check("c07.only-a-protocol-that-shut-down-has-no-channel", state[i] == 1),
+            Some(n) => {
+                if state[i] == 0 && !any_busy { check("c07.every-running-protocol-is-told-exactly-once", n == 1); }
+                if state[i] == 0 { check("c07.no-duplicate-report", n <= 1); }
+                if state[i] == 2 { check("c07.busy-protocol-not-told-twice", n == 0); }
+            }
+        }
+    }
+}
